@@ -24,13 +24,18 @@ class Schemes:
     def key_of_call(self, call):
         return self.by_lower[call.lower()]
 
-    def bkg_names(self):
-        """reference background names -> chain of scheme keys [(key, unless_alpha_first)]"""
+    def bkg_names(self, port_only=False):
+        """reference background names -> chain of scheme keys [(key, unless_alpha_first)]
+        port_only=True adds the nuclides that exist only in the port (graphs extracted from the C++ text, tools/c2f.py):
+        usable wherever no reference is needed (steering, well-formedness, dispatch, history, memory safety)"""
         res = {}
         for nm, chain in self.tab["chains"]["bkg"].items():
             if nm in ("Artificial", "Compton", "Moller", "E+E-external"):
                 continue
             res[nm] = [(self.key_of_call(c["call"]), c["unless_alpha_first"]) for c in chain]
+        if port_only:
+            for nm, chain in self.tab["chains"].get("port_only", {}).items():
+                res[nm] = [(self.key_of_call(c["call"]), c["unless_alpha_first"]) for c in chain]
         return res
 
     def all_paths(self, key, limit=None):
